@@ -27,8 +27,8 @@ class SIValueParser(BaseParser):
         # special case: its a quantitative value already,
         # just check unit and repack as SIValue
         if isinstance(v, tcls.__base__):
-            v.unitText = str(parse_obj_as(PintUnit, v.unitText or ""))
-            return tcls.construct(v.dict())
+            unit = str(parse_obj_as(PintUnit, v.unitText or ""))
+            return tcls.validate({**v.dict(), "unitText": unit})
 
         # important: parse back serialized data!
         if isinstance(v, dict):
